@@ -774,8 +774,11 @@ def _for(st: tuple, c: Ctx, out: list[str]) -> None:
         c.stopindex[key] = length
     else:
         if offset == "continue":
+            # [mirror] (as in the reference implementation: from = offsets[name]; offsets[name] = from + len(segment))
+            # the recorded stop index is NOT clamped to a shorter iterable: nothing is left, and the index stays put
             offset = c.stopindex.get(key, 0)
-        if offset is not None:
+            length = max(length - offset, 0)
+        elif offset is not None:
             offset = min(max(offset, 0), length)
             length = max(length - offset, 0)
         if limit is not None:
